@@ -71,6 +71,40 @@ let args_run a = match a with
   | ["secretset"; dn; dl] -> v_secret_set (mkbuf dn dl)
   | _ -> failwith "args api"
 
+(* ---- secure_buffer histories (Model_SecureBuffer) ---- *)
+let sb_var s = if s = "A" then VA else VB
+let sb_op o =
+  match split_on ':' o with
+  | ["N"; x; n] -> OCtorN (sb_var x, nat_of_int (int_of_string n))
+  | ["V"; x; d] -> OAdopt (sb_var x, bx d, [])
+  | ["V"; x; d; sl] -> OAdopt (sb_var x, bx d, List.map (fun b -> Val b) (bx sl))
+  | ["S"; x; d] -> OFromString (sb_var x, bx d)
+  | ["T"; x; d] -> OAssignString (sb_var x, bx d)
+  | ["C"; x] -> OCopyAssign (sb_var x)
+  | ["M"; x] -> OMoveAssign (sb_var x)
+  | ["K"; x] -> OCopyCtor (sb_var x)
+  | ["Y"; x] -> OSelfAssign (sb_var x)
+  | ["R"; x; n] -> OResize (sb_var x, nat_of_int (int_of_string n))
+  | ["L"; x] -> OClear (sb_var x)
+  | ["P"; x; d] -> OAssignPtr (sb_var x, bx d)
+  | ["W"; x; i; b] -> OWrite (sb_var x, nat_of_int (int_of_string i), n_of_int (int_of_string b))
+  | _ -> failwith "sbhist op"
+let sb_grow _ n = n           (* any policy with requested <= new capacity: contents and release verdicts do not depend on it (theorems of Properties_C16) *)
+let sbhist ops =
+  let st = ref init_state and trace = ref [] and clean = ref true and strs = ref true in
+  List.iter (fun o ->
+    let (st', ev) = step sb_grow true !st (sb_op o) in
+    st := st';
+    if not (List.for_all block_clean ev.frees) then clean := false;
+    List.iter (fun (chars, empty) -> if not (empty && List.for_all (fun c -> c = N0) chars) then strs := false) ev.strings;
+    trace := ("A=" ^ hx (contents !st.sa) ^ ";B=" ^ hx (contents !st.sb)) :: !trace) ops;
+  if not (List.for_all block_clean (destroy !st).frees) then clean := false;
+  String.concat "|" (List.rev !trace) ^ " frees=" ^ (if !clean then "clean" else "dirty") ^ " strings=" ^ (if !strs then "zeroed" else "dirty")
+let sbspec ops =
+  let st = ref ([], []) and trace = ref [] in
+  List.iter (fun o -> st := spec_step !st (sb_op o); trace := ("A=" ^ hx (fst !st) ^ ";B=" ^ hx (snd !st)) :: !trace) ops;
+  String.concat "|" (List.rev !trace) ^ " frees=clean strings=zeroed"
+
 let run toks =
   match toks with
   | ["cteq"; a; b] -> bool_s (ct_equals (bx a) (bx b))
@@ -156,6 +190,20 @@ let run toks =
       "ok " ^ bool_s (List.mem (bx tok) (candidates (hash_of t) (bx k) (if fp = "none" then None else Some (bx fp)) (zd now) (zd i)))
   | ["tostring"; z] -> hx (to_string (zd z))
   | "args" :: rest -> verdict_s (args_run rest)
+  | ["b64enc"; url; pad; d] -> hx (base64_encode (b01 url) (b01 pad) (bx d))
+  | ["spec.b64enc"; url; pad; d] -> hx (b64_spec_encode (b01 url) (b01 pad) (bx d))
+  | ["b64dec"; url; req; strict; s] -> (match base64_decode (b01 url) (b01 req) (b01 strict) (bx s) with Some d -> "some " ^ hx d | None -> "none")
+  | ["spec.b64dec"; url; req; strict; s] ->
+      let f = b64_filter (b01 strict) (bx s) in
+      if b64_langb (b01 url) (b01 req) (b01 strict) f then "some " ^ hx (b64_spec_value (b01 url) (b01 strict) f) else "none" 
+  | ["b32enc"; pad; d] -> hx (base32_encode (b01 pad) (bx d))
+  | ["spec.b32enc"; pad; d] -> hx (b32_spec_encode (b01 pad) (bx d))
+  | ["b32dec"; req; strict; s] -> (match base32_decode (b01 req) (b01 strict) (bx s) with Some d -> "some " ^ hx d | None -> "none")
+  | ["spec.b32dec"; req; strict; s] ->
+      let f = b32_filter (b01 strict) (bx s) in
+      if b32_langb (b01 req) (b01 strict) f then "some " ^ hx (b32_spec_value (b01 strict) f) else "none" 
+  | "sbhist" :: _ :: ops -> sbhist ops
+  | "spec.sbhist" :: _ :: ops -> sbspec ops
   | ["b36enc"; d] -> hx (base36_encode (bx d))
   | ["spec.b36enc"; d] -> hx (b36_spec_encode (bx d))
   | ["b36dec"; s] -> (match base36_decode (bx s) with Some d -> "some " ^ hx d | None -> "none")
